@@ -63,7 +63,7 @@ def run(ctx):
                 uses_writer = True
                 n_raw += 1
                 root = name.split("::{closure")[0]
-                why = RAW_ALLOWED.get(root)
+                why = RAW_ALLOWED.get(root) or _raw_helper_of_audited(fx, root)
                 chk.instance("C10/R2", "raw write into the XML writer%s" % (" — audited: " + why if why else ""), name, c.loc(), holds=why is not None,
                              key="C10/R2 raw-write in %s" % T.strip_generics(root),
                              detail=None if why else "caller data copied verbatim: '<', '&' or ']]>]]>' in the value corrupt the message")
@@ -88,6 +88,38 @@ def run(ctx):
     chk.floor("C10/R2 text-content sites", n_text, 17)
     chk.extra["sink_counts"] = {"create_element": n_el, "with_attribute": n_attr, "write_text_content": n_text, "raw_or_literal": n_raw}
     r3_delimiter(ctx, chk, fx)
+
+
+def _raw_helper_of_audited(fx, root, _depth=0):
+    """A private function that does the verbatim write for an audited site: every call to it comes from an audited writer (or from
+    another such helper), and it is not reachable from outside the crate."""
+    if _depth > 2:
+        return None
+    try:
+        it = fx.fn_item(root)
+    except F.AnchorLost:
+        return None
+    if it is None or str(it.get("vis", "")).startswith("Public"):
+        return None
+    callers = set()
+    for name, b in fx.mir.items():
+        for c in b.calls():
+            if not c.macro and (c.rdef == root or c.defn == root):
+                callers.add(name.split("::{closure")[0])
+        # handed on as a function value
+        for bl in b.blocks:
+            for st in bl["stmts"]:
+                if st["k"] == "assign" and st["rv"]["k"] in ("use", "cast") and st["rv"]["op"].get("c") == "const" and st["rv"]["op"].get("def") == root:
+                    callers.add("(function value) " + name)
+    if not callers:
+        return None
+    whys = []
+    for cl in sorted(callers):
+        w = RAW_ALLOWED.get(cl) or (None if cl.startswith("(") else _raw_helper_of_audited(fx, cl, _depth + 1))
+        if w is None:
+            return None
+        whys.append(w.split(":")[0])
+    return "private helper called only from audited raw site(s) %s" % sorted(set(whys))
 
 
 def writes_to_xml_writer(b, c):
